@@ -79,10 +79,8 @@ CLAIMS = {
              "One open finding (target exactly at the north pole) is reported as KNOWN-FINDING.",
         note="as C03.", design="8 C05", technique="Lean 4 proof + exact-rational correspondence"),
     "C06": dict(
-        text="Theorems on the model for all rational latitudes: the transition table is well formed (58 strictly increasing enclosures of width 1e-12), cprNL equals the staircase "
-             "(the two isclose short-cuts agree with it), is even, antitone in |lat|, in [1,59], 59 at 0, 2 up to and including 87 and 1 beyond. "
-             "Tie: real cprNL on a 0.002-degree grid (0.0005 thorough) plus every double within +-96 (256) ulp of each signed transition, 0, +-87, +-90.",
-        note="that the committed enclosures contain the true transition latitudes rests on a 60-digit mpmath computation (not a theorem); float evaluation within 1e-9 degree of a transition may return either neighbour.",
+        text="Theorems (43): on all rationals the model of cprNL equals the staircase over the transition table (both isclose short-cuts agree with it), is even, antitone in |lat|, in [1,59], 59 at 0, 2 up to and including 87 and 1 iff beyond; the table is PROVED to enclose the true DO-260B transition latitudes theta_n = (180/pi)*arccos(sqrt((1-cos(pi/30))/(1-cos(2pi/n)))) for all 58 rows (verified Taylor bounds for cos with Mathlib's 20-digit pi bounds, per-row rational certificate); theta is strictly decreasing; the closed-form floor formula of the code equals the staircase over the reals (transition points themselves excepted); none of the four CPR latitude grids comes within 8.069e-9 degree of a transition (sharp), so staircase, closed form and any evaluation accurate to 1e-9 degree agree on every decodable latitude. Tie: real cprNL and the transliterated .pyx on a 0.002-degree grid (0.0005 thorough), every double within +-96 (256) ulp and a few nano-degrees either side of each signed transition in both call orders, 0, +-87, +-90.",
+        note='IEEE/libm evaluation of the closed form near a transition may return either neighbour within 1e-9 degree (the property allows it); float evaluation itself is not modelled.',
         design="8 C06", technique="Lean 4 proof (staircase laws over Q) + grid/ulp correspondence"),
     "C12": dict(
         text='Theorems (64): infer is total on 112-bit frames (every isXX is a value); EMPTY; DF17 by type code (table pinned); for Comm-B replies infer returns exactly the labels of the satisfied rule sets in the fixed order, which is proved to be the sorted order, None iff no rule holds; wrongstatus_spec; per-register soundness for every coded status triple of 4,0 4,4 4,5 5,0 6,0 and for the reserved-bit rules of 1,0 1,7 2,0 3,0 4,0; exact characterisation is50_iff and completeness for BDS 4,0, 5,0 and 6,0 (core) built from sub-fields with arbitrary header/parity. Tie and oracle: completeness, soundness, thresholds +-1 LSB, DF20 altitude cross-check through the Float aero model, call-history sequences, is50or60, random payloads, mrar both.',
